@@ -81,3 +81,24 @@ Theorem C14_failed_append_leaves_nothing : forall c init n0, WellFormed c init n
              (forall t, t <> u -> pcs s' t = pcs s t).
 Proof. intros c init n0 (H1 & H2 & H3 & H4). exact (failed_append_leaves_nothing c init n0 H1 H2 H3 H4). Qed.
 Print Assumptions C14_failed_append_leaves_nothing.
+
+(* Big record files. AppendRecord computes the slot and the byte offset of the write from the file length in machine
+   arithmetic (Model/C14.v append_idx / append_off / append_ret: a 64-bit quotient, a 64-bit product, wrap after every
+   operation). For EVERY record size and EVERY file length such that the file after the append still has a length an
+   off_t can hold (2^63), nothing wraps: the offset is the exact multiple of the record size at or just below the end of
+   the file (the end itself for a file of whole records), Seek accepts it, the returned index is the slot + 1 - and both
+   are the numbers the interleaving model above computes on nat ([length file / sz] in step PFlocked, [i * sz] in step
+   PSeeked, [S i] in step PUnflocked). So the theorems above speak about files of 2 GiB, 4 GiB and more as well as about
+   small ones. (What is a theorem: the arithmetic. That the compiled code uses these widths is validated by the check on
+   sparse files around 2^31, 2^32, 2^33 and 2^40 bytes.) *)
+Theorem C14_offset_exact : forall fsize szz, 0 < szz -> 0 <= fsize -> fsize + szz < 9223372036854775808 ->
+  append_idx fsize szz = fsize / szz /\
+  append_off fsize szz = fsize / szz * szz /\
+  append_ret fsize szz = fsize / szz + 1 /\
+  append_seek_ok fsize szz = true /\
+  append_off fsize szz <= fsize < append_off fsize szz + szz /\
+  (fsize mod szz = 0 -> append_off fsize szz = fsize) /\
+  Z.to_nat (append_off fsize szz) = (Z.to_nat fsize / Z.to_nat szz * Z.to_nat szz)%nat /\
+  Z.to_nat (append_ret fsize szz) = S (Z.to_nat fsize / Z.to_nat szz).
+Proof. exact offset_exact. Qed.
+Print Assumptions C14_offset_exact.
